@@ -141,6 +141,11 @@ impl Res {
 struct Case {
     lists: Vec<Vec<u64>>,
     progs: Vec<Vec<Op>>,
+    /// the lists hold probe elements (`hk::ProbeElem`): every clone /
+    /// comparison of an element is a schedule point of its own; such a case
+    /// is judged by the property oracle only (the Lean model's steps are
+    /// those of `u64` elements)
+    elem: bool,
 }
 
 impl Case {
@@ -170,17 +175,81 @@ impl Case {
             .split(';')
             .map(|p| if p.is_empty() { Some(vec![]) } else { p.split(',').map(Op::parse).collect() })
             .collect::<Option<Vec<_>>>()?;
-        Some(Case { lists, progs })
+        Some(Case { lists, progs, elem: false })
     }
     fn json(&self) -> serde_json::Value {
-        json!({"lists": self.lists_text(), "progs": self.progs_text()})
+        if self.elem {
+            json!({"lists": self.lists_text(), "progs": self.progs_text(), "elem": true})
+        } else {
+            json!({"lists": self.lists_text(), "progs": self.progs_text()})
+        }
     }
     /// class signature: the kinds of operations per thread (sorted by thread text)
     fn kinds(&self) -> String {
         let mut t: Vec<String> =
             self.progs.iter().map(|p| p.iter().map(|o| o.kind()).collect::<Vec<_>>().join("+")).collect();
         t.sort();
-        t.join("|")
+        if self.elem { format!("elem:{}", t.join("|")) } else { t.join("|") }
+    }
+}
+
+// ---------------------------------------------------------------- element types
+
+/// the element type of the lists of a case
+trait El: 'static {
+    type T: roto::Value<Transformed: PartialEq> + Clone + Send + Sync + 'static;
+    fn mk(v: u64) -> Self::T;
+    /// the two halves of an element (equal for every value ever stored)
+    fn halves(t: &Self::T) -> (u64, u64);
+    fn lock_id(l: &List<Self::T>) -> usize;
+    fn ffi_get(l: &List<Self::T>, i: u64) -> Option<(u64, u64)>;
+    fn contains_owned(l: &List<Self::T>, v: u64) -> bool;
+    fn erased_eq(a: &List<Self::T>, b: &List<Self::T>) -> bool;
+}
+
+struct U64El;
+impl El for U64El {
+    type T = u64;
+    fn mk(v: u64) -> u64 {
+        v
+    }
+    fn halves(t: &u64) -> (u64, u64) {
+        (*t, *t)
+    }
+    fn lock_id(l: &List<u64>) -> usize {
+        hk::lock_id(l)
+    }
+    fn ffi_get(l: &List<u64>, i: u64) -> Option<(u64, u64)> {
+        hk::ffi_get_u64(l, i).map(|v| (v, v))
+    }
+    fn contains_owned(l: &List<u64>, v: u64) -> bool {
+        hk::contains_owned_u64(l, v)
+    }
+    fn erased_eq(a: &List<u64>, b: &List<u64>) -> bool {
+        hk::erased_eq_u64(a, b)
+    }
+}
+
+struct ProbeEl;
+impl El for ProbeEl {
+    type T = roto::Val<hk::ProbeElem>;
+    fn mk(v: u64) -> Self::T {
+        roto::Val(hk::ProbeElem::new(v))
+    }
+    fn halves(t: &Self::T) -> (u64, u64) {
+        t.0.halves()
+    }
+    fn lock_id(l: &List<Self::T>) -> usize {
+        hk::lock_id_of(l)
+    }
+    fn ffi_get(l: &List<Self::T>, i: u64) -> Option<(u64, u64)> {
+        hk::ffi_get_probe(l, i)
+    }
+    fn contains_owned(l: &List<Self::T>, v: u64) -> bool {
+        hk::contains_owned_probe(l, v)
+    }
+    fn erased_eq(a: &List<Self::T>, b: &List<Self::T>) -> bool {
+        hk::erased_eq_of(a, b)
     }
 }
 
@@ -207,6 +276,10 @@ struct Exec {
     lists: Vec<Option<Vec<u64>>>,
     /// site names of schedule points at which `O` / `S` were reported
     sites: Vec<(usize, char, String)>,
+    /// what the threads themselves noticed: (thread, operation index, what) —
+    /// `torn-element` (a result whose two halves differ: never in the list),
+    /// `concat-aliases-operand` (the result of concat is not a fresh list)
+    flags: Vec<(usize, usize, String)>,
 }
 
 impl Exec {
@@ -253,37 +326,54 @@ fn ev_letter(e: &hk::Event) -> char {
 const STEP_LIMIT: Duration = Duration::from_secs(20);
 
 /// what a thread hands back: results, spans are computed by the controller
-struct ThreadOut {
+struct ThreadOut<E: El> {
     results: Vec<Res>,
     /// number of operations completed
-    handles: Vec<Vec<List<u64>>>,
+    handles: Vec<Vec<List<E::T>>>,
 }
 
-fn run_thread(
+type Flags = std::sync::Arc<std::sync::Mutex<Vec<(usize, usize, String)>>>;
+
+fn run_thread<E: El>(
     session: std::sync::Arc<hk::Session>,
     tid: usize,
     prog: Vec<Op>,
-    mut bag: Vec<Vec<List<u64>>>,
+    mut bag: Vec<Vec<List<E::T>>>,
     done: std::sync::Arc<std::sync::Mutex<Vec<Vec<Res>>>>,
-) -> ThreadOut {
+    flags: Flags,
+) -> ThreadOut<E> {
     session.attach(tid);
     let mut results = vec![];
     let r = std::panic::catch_unwind(std::panic::AssertUnwindSafe(|| {
-        for op in &prog {
+        for (opi, op) in prog.iter().enumerate() {
+            // one value of an element; different halves = a value that never was in the list
+            let one = |h: (u64, u64)| -> u64 {
+                if h.0 != h.1 {
+                    flags.lock().unwrap().push((tid, opi, format!("torn-element {}|{}", h.0, h.1)));
+                }
+                h.0
+            };
+            let vals = |v: &[E::T]| -> Vec<u64> { v.iter().map(|e| one(E::halves(e))).collect() };
+            hk::op_begin();
             let res = match op {
-                Op::Get(l, i) => Res::Opt(bag[*l].last().unwrap().get(*i)),
-                Op::FfiGet(l, i) => Res::Opt(hk::ffi_get_u64(bag[*l].last().unwrap(), *i as u64)),
+                Op::Get(l, i) => Res::Opt(bag[*l].last().unwrap().get(*i).map(|e| one(E::halves(&e)))),
+                Op::FfiGet(l, i) => Res::Opt(E::ffi_get(bag[*l].last().unwrap(), *i as u64).map(one)),
                 Op::Push(l, v) => {
-                    bag[*l].last().unwrap().push(*v);
+                    bag[*l].last().unwrap().push(E::mk(*v));
                     Res::Unit
                 }
                 Op::Concat(a, b) => {
                     let n = bag[*a].last().unwrap().concat(bag[*b].last().unwrap());
+                    // the result must be a fresh list, not one of the operands
+                    let id = E::lock_id(&n);
+                    if id == E::lock_id(bag[*a].last().unwrap()) || id == E::lock_id(bag[*b].last().unwrap()) {
+                        flags.lock().unwrap().push((tid, opi, "concat-aliases-operand".into()));
+                    }
                     // reading (and releasing) the private result is not part
                     // of the operation — detach meanwhile
-                    Res::List(unattached(&session, tid, move || n.to_vec()))
+                    Res::List(vals(&unattached(&session, tid, move || n.to_vec())))
                 }
-                Op::Contains(l, v) => Res::Bool(hk::contains_owned_u64(bag[*l].last().unwrap(), *v)),
+                Op::Contains(l, v) => Res::Bool(E::contains_owned(bag[*l].last().unwrap(), *v)),
                 Op::Swap(l, i, j) => {
                     bag[*l].last().unwrap().swap(*i, *j);
                     Res::Unit
@@ -295,9 +385,9 @@ fn run_thread(
                     }
                     Res::Bool(bag[*a].last().unwrap() == bag[*b].last().unwrap())
                 }
-                Op::Index(l, v) => Res::Opt(bag[*l].last().unwrap().index(v).map(|i| i as u64)),
+                Op::Index(l, v) => Res::Opt(bag[*l].last().unwrap().index(&E::mk(*v)).map(|i| i as u64)),
                 Op::IsEmpty(l) => Res::Bool(bag[*l].last().unwrap().is_empty()),
-                Op::ToVec(l) => Res::List(bag[*l].last().unwrap().to_vec()),
+                Op::ToVec(l) => Res::List(vals(&bag[*l].last().unwrap().to_vec())),
                 Op::Clone(l) => {
                     hk::sched_op("harness:clone");
                     let c = bag[*l].last().unwrap().clone();
@@ -313,7 +403,7 @@ fn run_thread(
                     if a == b {
                         hk::sched_op("harness:eq-same");
                     }
-                    Res::Bool(hk::erased_eq_u64(bag[*a].last().unwrap(), bag[*b].last().unwrap()))
+                    Res::Bool(E::erased_eq(bag[*a].last().unwrap(), bag[*b].last().unwrap()))
                 }
             };
             done.lock().unwrap()[tid].push(res.clone());
@@ -333,6 +423,8 @@ fn run_thread(
                 .or_else(|| p.downcast_ref::<&str>().map(|s| s.to_string()))
                 .unwrap_or_else(|| "panic".into());
             eprintln!("C16-THREAD-PANIC {tid}: {msg}");
+            // in the shared-vector model every operation returns
+            flags.lock().unwrap().push((tid, results.len(), format!("panic {msg}")));
         }
     }
     session.finish(tid);
@@ -351,28 +443,33 @@ fn unattached<R>(session: &std::sync::Arc<hk::Session>, tid: usize, f: impl FnOn
 /// Execute `case` along `prefix`, then (if `extend`) keep going with the
 /// lowest enabled thread until nobody can move.
 fn exec(case: &Case, prefix: &[usize], extend: bool) -> Exec {
+    if case.elem { exec_with::<ProbeEl>(case, prefix, extend) } else { exec_with::<U64El>(case, prefix, extend) }
+}
+
+fn exec_with<E: El>(case: &Case, prefix: &[usize], extend: bool) -> Exec {
     let n = case.progs.len();
     let session = hk::Session::new(n, true);
     // list index order = address order of the lists' mutexes (`==` locks in
     // address order; the model uses the index)
-    let mut shared: Vec<List<u64>> = case.lists.iter().map(|_| List::new()).collect();
-    shared.sort_by_key(hk::lock_id);
+    let mut shared: Vec<List<E::T>> = case.lists.iter().map(|_| List::new()).collect();
+    shared.sort_by_key(E::lock_id);
     for (l, elems) in shared.iter().zip(&case.lists) {
         for v in elems {
-            l.push(*v);
+            l.push(E::mk(*v));
         }
     }
     let done = std::sync::Arc::new(std::sync::Mutex::new(vec![vec![]; n]));
+    let flags: Flags = Default::default();
     let mut joins = vec![];
     for t in 0..n {
-        let bag: Vec<Vec<List<u64>>> = shared.iter().map(|l| vec![l.clone()]).collect();
-        let (s, p, d) = (session.clone(), case.progs[t].clone(), done.clone());
+        let bag: Vec<Vec<List<E::T>>> = shared.iter().map(|l| vec![l.clone()]).collect();
+        let (s, p, d, f) = (session.clone(), case.progs[t].clone(), done.clone(), flags.clone());
         // the machine may be out of threads for a moment: wait and try again
-        let mut job = Some((s, p, bag, d));
+        let mut job = Some((s, p, bag, d, f));
         let mut tries = 0;
         let handle = loop {
-            let (s, p, bag, d) = job.take().unwrap();
-            let r = std::thread::Builder::new().stack_size(256 * 1024).spawn(move || run_thread(s, t, p, bag, d));
+            let (s, p, bag, d, f) = job.take().unwrap();
+            let r = std::thread::Builder::new().stack_size(256 * 1024).spawn(move || run_thread::<E>(s, t, p, bag, d, f));
             match r {
                 Ok(h) => break h,
                 Err(e) => {
@@ -382,8 +479,8 @@ fn exec(case: &Case, prefix: &[usize], extend: bool) -> Exec {
                     }
                     std::thread::sleep(Duration::from_millis(100));
                     // the closure (and what it captured) is gone: rebuild the job
-                    let bag: Vec<Vec<List<u64>>> = shared.iter().map(|l| vec![l.clone()]).collect();
-                    job = Some((session.clone(), case.progs[t].clone(), bag, done.clone()));
+                    let bag: Vec<Vec<List<E::T>>> = shared.iter().map(|l| vec![l.clone()]).collect();
+                    job = Some((session.clone(), case.progs[t].clone(), bag, done.clone(), flags.clone()));
                 }
             }
         };
@@ -466,6 +563,9 @@ fn exec(case: &Case, prefix: &[usize], extend: bool) -> Exec {
     }
     ex.in_progress = cur_steps.iter().map(|c| !c.is_empty()).collect();
     let clean = ex.end == "ok";
+    // what had completed when the schedule ended (a thread released from an
+    // element-level schedule point by `abort` runs on to the end of its program)
+    let results_at_end = done.lock().unwrap().clone();
     if !clean {
         session.abort();
     }
@@ -478,12 +578,29 @@ fn exec(case: &Case, prefix: &[usize], extend: bool) -> Exec {
             }
         }
     }
-    ex.results = done.lock().unwrap().clone();
-    if clean && outs.len() == n {
+    ex.results = results_at_end;
+    ex.flags = flags.lock().unwrap().clone();
+    let panicked = ex.flags.iter().any(|f| f.2.starts_with("panic "));
+    if panicked && ex.end == "ok" {
+        // (the list's mutex is poisoned: its contents cannot be read any more)
+        ex.end = "panic".into();
+    }
+    if clean && !panicked && outs.len() == n {
         // final contents of the shared lists, through any handle still alive
         for l in 0..case.lists.len() {
             let h = outs.iter().find_map(|o| o.handles[l].last());
-            ex.lists.push(h.map(|h| h.to_vec()));
+            ex.lists.push(h.map(|h| {
+                h.to_vec()
+                    .iter()
+                    .map(|e| {
+                        let (a, b) = E::halves(e);
+                        if a != b {
+                            ex.flags.push((usize::MAX, 0, format!("torn-element {a}|{b}")));
+                        }
+                        a
+                    })
+                    .collect()
+            }));
         }
     }
     let _ = outs.iter().map(|o| o.results.len()).sum::<usize>();
@@ -629,7 +746,11 @@ fn explained_by_two_section_concat(case: &Case, ex: &Exec) -> bool {
 }
 
 fn replay_json(case: &Case, ex: &Exec) -> serde_json::Value {
-    json!({"lists": case.lists_text(), "progs": case.progs_text(), "sched": ex.sched_text(), "observed": ex.obs()})
+    let mut j = json!({"lists": case.lists_text(), "progs": case.progs_text(), "sched": ex.sched_text(), "observed": ex.obs()});
+    if case.elem {
+        j["elem"] = json!(true);
+    }
+    j
 }
 
 /// the operation thread `t` was executing at step `k`
@@ -646,6 +767,36 @@ fn op_at(case: &Case, ex: &Exec, t: usize, k: usize) -> Option<Op> {
 
 /// check one executed schedule against the property; report violations
 fn judge(case: &Case, ex: &Exec, rep: &mut Report) {
+    for (t, opi, what) in &ex.flags {
+        let opk = case.progs.get(*t).and_then(|p| p.get(*opi)).map(|o| o.kind()).unwrap_or("final-contents");
+        if let Some(msg) = what.strip_prefix("panic ") {
+            rep.violation(
+                "a list operation panicked (in the shared-vector model every operation returns; the panic also poisons the list's lock for every other handle)",
+                &format!("panic-in-operation {opk}"),
+                {
+                    let mut j = replay_json(case, ex);
+                    j["panic"] = json!(msg);
+                    j
+                },
+            );
+        } else if what.starts_with("torn-element") {
+            rep.violation(
+                "an operation returned an element whose two halves differ (every element ever stored has equal halves): the element was read while another thread was writing it",
+                &format!("torn-element {opk}"),
+                {
+                    let mut j = replay_json(case, ex);
+                    j["torn"] = json!(what);
+                    j
+                },
+            );
+        } else {
+            rep.violation(
+                "the result of concat is one of its operands, not a fresh list (a later push through one handle is seen through the other)",
+                &format!("{what} {opk}"),
+                replay_json(case, ex),
+            );
+        }
+    }
     for (k, (t, letters, _)) in ex.steps.iter().enumerate() {
         let opk = op_at(case, ex, *t, k).map(|o| o.kind()).unwrap_or("?");
         if letters.contains('S') {
@@ -819,8 +970,100 @@ fn n_random(thorough: bool) -> u64 {
     if thorough { 3_000 } else { 1_600 }
 }
 
+/// random cases over probe elements (element-level schedule points)
+fn n_random_elem(thorough: bool) -> u64 {
+    if thorough { 1_500 } else { 250 }
+}
+
+/// Class representatives, run first whatever the seed.
+///
+/// (a) element-level: every operation that reads elements (the *walkers*:
+/// Rust-side get / to_vec / == / index, script-side get / == / contains,
+/// concat in the three lock orders) against every operation that relocates
+/// the buffer or rewrites elements (push to a full list, swap) on either
+/// list, over probe elements: each clone / comparison of an element is a
+/// schedule point, so a walk that is not covered by the list's lock can be
+/// interleaved with the mutator. Lists `[1,2,3,4]` (full) and `[1,1,3,4]`
+/// (full; equal to the first after a swap that lands between the comparison
+/// of elements 0 and 1).
+/// (b) concat with an empty operand on either side (the result must be a
+/// fresh list), over `u64` and probe elements.
+fn representatives() -> Vec<Case> {
+    let mut out = vec![];
+    let walkers = [
+        Op::Get(0, 1),
+        Op::FfiGet(0, 1),
+        Op::ToVec(0),
+        Op::EqTyped(0, 1),
+        Op::EqTyped(1, 0),
+        Op::Eq(0, 1),
+        Op::Eq(1, 0),
+        // (2 is in the list all the time; a swap that lands between the
+        // comparisons of elements 0 and 1 hides it from an unlocked scan)
+        Op::Contains(0, 2),
+        Op::Index(0, 2),
+        Op::Concat(0, 1),
+        Op::Concat(1, 0),
+        Op::Concat(0, 0),
+    ];
+    let mutators = [Op::Push(0, 7), Op::Swap(0, 0, 1), Op::Push(1, 7), Op::Swap(1, 0, 1)];
+    for w in &walkers {
+        for m in &mutators {
+            out.push(Case {
+                lists: vec![vec![1, 2, 3, 4], vec![1, 1, 3, 4]],
+                progs: vec![vec![w.clone()], vec![m.clone()]],
+                elem: true,
+            });
+        }
+    }
+    // `==` over two equal lists: the comparison walks to the end
+    for w in [Op::EqTyped(0, 1), Op::EqTyped(1, 0), Op::Eq(0, 1), Op::Eq(1, 0)] {
+        for m in &mutators {
+            out.push(Case {
+                lists: vec![vec![1, 2, 3, 4], vec![1, 2, 3, 4]],
+                progs: vec![vec![w.clone()], vec![m.clone()]],
+                elem: true,
+            });
+        }
+    }
+    for elem in [false, true] {
+        for (a, b) in [(vec![], vec![1u64, 2]), (vec![1, 2], vec![]), (vec![], vec![])] {
+            for c in [Op::Concat(0, 1), Op::Concat(1, 0), Op::Concat(0, 0)] {
+                out.push(Case {
+                    lists: vec![a.clone(), b.clone()],
+                    progs: vec![vec![c, Op::Push(0, 9), Op::ToVec(1)], vec![Op::Push(1, 8)]],
+                    elem,
+                });
+            }
+        }
+    }
+    out
+}
+
+fn random_elem_case(seed: u64, index: u64) -> Case {
+    let mut rng = Prng::for_case(seed ^ 0xE1E_E1E, index);
+    let lists: Vec<Vec<u64>> = (0..2)
+        .map(|_| {
+            let len = *rng.pick(&[0usize, 1, 2, 4, 4]);
+            (0..len).map(|i| 1 + (i as u64 % 3)).collect()
+        })
+        .collect();
+    let mut progs = vec![];
+    for _ in 0..2 {
+        let n = 1 + rng.below(2) as usize;
+        progs.push((0..n).map(|_| random_op(&mut rng)).collect());
+    }
+    Case { lists, progs, elem: true }
+}
+
 /// case `index` of the run
 fn case_for(seed: u64, thorough: bool, index: u64) -> Case {
+    // 0. class representatives
+    let reps = representatives();
+    if (index as usize) < reps.len() {
+        return reps[index as usize].clone();
+    }
+    let index = index - reps.len() as u64;
     let a = alphabet();
     let na = a.len() as u64;
     // 1. every pair of single operations
@@ -828,6 +1071,7 @@ fn case_for(seed: u64, thorough: bool, index: u64) -> Case {
         return Case {
             lists: base_lists(),
             progs: vec![vec![a[(index / na) as usize].clone()], vec![a[(index % na) as usize].clone()]],
+            elem: false,
         };
     }
     let index = index - na * na;
@@ -845,19 +1089,24 @@ fn case_for(seed: u64, thorough: bool, index: u64) -> Case {
             let p: Vec<Op> = (0..n).map(|_| random_op(&mut rng)).collect();
             progs.push(with_drops(&p, &mut rng));
         }
-        return Case { lists: random_lists(&mut rng), progs };
+        return Case { lists: random_lists(&mut rng), progs, elem: false };
+    }
+    let index = index - n_random(thorough);
+    // 2b. random cases over probe elements
+    if index < n_random_elem(thorough) {
+        return random_elem_case(seed, index);
     }
     // 3. (thorough) every pair of programs of ≤ 2 operations over the small alphabet
-    let index = index - n_random(thorough);
+    let index = index - n_random_elem(thorough);
     let sp = small_programs();
     let n = sp.len() as u64;
-    Case { lists: base_lists(), progs: vec![sp[(index / n) as usize].clone(), sp[(index % n) as usize].clone()] }
+    Case { lists: base_lists(), progs: vec![sp[(index / n) as usize].clone(), sp[(index % n) as usize].clone()], elem: false }
 }
 
 fn total_cases(thorough: bool) -> u64 {
     let na = alphabet().len() as u64;
     let sp = small_programs().len() as u64;
-    na * na + n_random(thorough) + if thorough { sp * sp } else { 0 }
+    representatives().len() as u64 + na * na + n_random(thorough) + n_random_elem(thorough) + if thorough { sp * sp } else { 0 }
 }
 
 // ---------------------------------------------------------------- running cases
@@ -886,7 +1135,12 @@ fn model_obs_cut_at_trap(obs: &str) -> Option<(String, usize)> {
 }
 
 fn run_case(case: &Case, drv: Option<&mut Driver>, rep: &mut Report, limit: usize) {
+    // element-level cases: oracle only, and two long walks over different
+    // lists have very many interleavings that differ in nothing
+    let limit = if case.elem { limit.min(400) } else { limit };
+    let drv = if case.elem { None } else { drv };
     let (execs, cut) = enumerate_real(case, limit);
+    rep.hist("elements", if case.elem { "probe (element-level schedule points)" } else { "u64" });
     rep.hist("schedules-per-case", bucket(execs.len()));
     rep.hist("threads", case.progs.len().to_string());
     for p in &case.progs {
@@ -895,7 +1149,10 @@ fn run_case(case: &Case, drv: Option<&mut Driver>, rep: &mut Report, limit: usiz
         }
     }
     if cut {
-        rep.notes.push(format!("schedule enumeration cut at {limit} for some cases"));
+        let n = format!("schedule enumeration cut at {limit} for some cases");
+        if !rep.notes.contains(&n) {
+            rep.notes.push(n);
+        }
     }
     let mut ends: BTreeMap<String, u64> = BTreeMap::new();
     for ex in &execs {
@@ -1006,7 +1263,7 @@ fn stress_case(seed: u64, index: u64) -> Case {
         progs.push(p);
     }
     let len0 = *rng.pick(&[4usize, 4, 4, 8]);
-    Case { lists: vec![(1..=len0 as u64).collect(), vec![5, 6, 7, 8]], progs }
+    Case { lists: vec![(1..=len0 as u64).collect(), vec![5, 6, 7, 8]], progs, elem: false }
 }
 
 /// spawn a thread; if the machine is out of threads for a moment, wait and try again
@@ -1414,7 +1671,8 @@ fn main() {
         }
         Some("replay") => {
             let v: serde_json::Value = serde_json::from_str(&args[2]).expect("json");
-            let case = Case::parse(v["lists"].as_str().unwrap_or(""), v["progs"].as_str().unwrap_or("")).expect("case");
+            let mut case = Case::parse(v["lists"].as_str().unwrap_or(""), v["progs"].as_str().unwrap_or("")).expect("case");
+            case.elem = v["elem"].as_bool() == Some(true);
             if v["stress"].as_bool() == Some(true) {
                 // probabilistic: repeat the race
                 let seed = v["seed"].as_u64().unwrap_or(1);
@@ -1445,7 +1703,9 @@ fn main() {
                     println!("REPLAY sched={} obs={}", ex.sched_text(), ex.obs());
                     rep.evaluations += 1;
                     judge(&case, &ex, &mut rep);
-                    if let Ok(mut d) = Driver::spawn() {
+                    if case.elem {
+                        println!("MODEL  (none: element-level schedule points are judged by the property oracle only)");
+                    } else if let Ok(mut d) = Driver::spawn() {
                         let m = d.ask(&format!("c16 run gen {} {} {}", case.lists_text(), case.model_progs_text(), s));
                         println!("MODEL  obs={m}");
                     }
